@@ -652,10 +652,18 @@ func perturb(r *hx.Rand, s string) string {
 			}
 		}
 		pad := 769 + r.Intn(31) - nd
+		last := "1"
+		if r.Bool() {
+			// the extra digit on one of the last four places of the buffer, any non-zero digit: one
+			// small right shift then drops a tail such as "5", "25", "125", "375" — a dropped tail
+			// WITHOUT a zero digit (trunc must be set by a non-zero dropped digit, not by a zero one)
+			pad = 796 + r.Intn(4) - nd
+			last = string(rune('1' + r.Intn(9)))
+		}
 		if pad < 1 {
 			pad = 1
 		}
-		return frac + strings.Repeat("0", pad) + "1"
+		return frac + strings.Repeat("0", pad) + last
 	case 5:
 		// just above the written value, but only beyond the 800 digits decimal.go keeps:
 		// the slow path must remember that it truncated non-zero digits
@@ -692,6 +700,36 @@ func perturb(r *hx.Rand, s string) string {
 		return s + "000"
 	}
 	return string(bs)
+}
+
+// truncTail: a tie that only the `trunc` flag of ONE small right shift can break. The value lies in
+// [1, 2^27) (floatBits' first loop then shifts right by 3…27 bits once or twice), the float below
+// the tie has an even mantissa (so round-half-even would go DOWN), and the text is the exact tie
+// padded with zeros up to one non-zero digit on the last places (797…800) of decimal.go's 800-digit
+// buffer. The shift pushes d·5^n beyond the buffer: a short dropped tail such as "5", "125", "375",
+// "1875" — with or without zero digits in it — and nothing else remembers that the value is above
+// the tie. Correct result: the float ABOVE the tie.
+func truncTail(r *hx.Rand) string {
+	f := math.Float64frombits((uint64(1023+r.Intn(27))<<52 | r.U64()>>12) &^ 1)
+	s := halfway(f)
+	if !strings.Contains(s, ".") {
+		s += "."
+	}
+	nd := 0
+	for _, c := range s {
+		if c >= '0' && c <= '9' {
+			nd++
+		}
+	}
+	pad := 796 + r.Intn(4) - nd
+	if pad < 0 {
+		pad = 0
+	}
+	s += strings.Repeat("0", pad) + string(rune('1'+r.Intn(9)))
+	if r.Chance(1, 4) {
+		s = "-" + s
+	}
+	return s
 }
 
 // reshape moves the decimal point into an exponent, adds sign / leading zeros.
@@ -828,9 +866,15 @@ func genNum(r *hx.Rand) (string, string) {
 		}
 		return s, "near"
 	case 3, 4, 5: // exact halfway case in full, perturbed in the last digit
+		if r.Chance(1, 4) {
+			return truncTail(r), "tail"
+		}
 		f := randDouble(r)
 		if r.Chance(1, 4) { // moderate magnitude: shorter text
 			f = math.Float64frombits(uint64(1023-10+r.Intn(80))<<52 | r.U64()>>12)
+			if r.Bool() { // [1, 2^27): floatBits' first loop makes one or two small right shifts
+				f = math.Float64frombits(uint64(1023+r.Intn(27))<<52 | r.U64()>>12)
+			}
 		} else if r.Chance(1, 6) {
 			// the float just below a power of two: the tie above it rounds UP to 2^k (even), i.e. the
 			// mantissa overflows to 2^53 and floatBits takes its "rounding added a bit" branch with
@@ -961,6 +1005,20 @@ func genIters(r *hx.Rand) (string, string) {
 	case 5: // 17–20 digits: the length bound of the fast path
 		return hx.Pick(r, []string{"", "-", "+"}) + hx.Pick(r, []string{"9", "1", "8", "92"}) + randDigits(r, 15+r.Intn(4)), "len"
 	case 6:
+		if r.Bool() {
+			// 19 bytes or more (so Atoi leaves its fast path for ParseInt/ParseUint) but a small value
+			// behind leading zeros, with one byte that is not a decimal digit: must be rejected, and
+			// would fit the range if the stray byte were read as a digit
+			s := strings.Repeat("0", 17+r.Intn(8)) + randDigits(r, 1+r.Intn(4))
+			junk := string(hx.Pick(r, []byte("abcdefxzABCDEFXZ:/g@`{")))
+			i := r.Intn(len(s) + 1)
+			if r.Bool() {
+				s = insertAt(s, i, junk)
+			} else if i < len(s) {
+				s = s[:i] + junk + s[i+1:]
+			}
+			return hx.Pick(r, []string{"", "", "-", "+"}) + s, "longjunk"
+		}
 		s := randDigits(r, 1+r.Intn(22))
 		return insertAt(s, r.Intn(len(s)+1), "_"), "under"
 	case 7:
